@@ -196,7 +196,19 @@ def pretty_wrapper(py: PyRepo):
     """the function the @pretty decorator substitutes for a method: value-level paths plus the values that stand for the receiver,
     the forwarded positional arguments and the decorated function. -> (wrapper def, paths, SELF, forwarded args tuple, FUNC name)"""
     ci = py.cls('PrettyPrintingInterpreter')
-    fn = ci.methods.get('pretty')
+    # the decorator is found through its use: the callee of the decorator expression on the interpreter methods of the class
+    # (`@pretty()`, `@PrettyPrintingInterpreter.pretty()`), defined in the class or at module level
+    names = set()
+    for g in ci.methods.values():
+        for d in g.decorator_list:
+            f = d.func if isinstance(d, ast.Call) else d
+            nm = f.attr if isinstance(f, ast.Attribute) else (f.id if isinstance(f, ast.Name) else None)
+            if nm and nm not in ('staticmethod', 'classmethod', 'property', 'cache', 'wraps'):
+                names.add(nm)
+    fn = None
+    if len(names) == 1:
+        nm = next(iter(names))
+        fn = ci.methods.get(nm) or py.modules[ci.module].functions.get(nm)
     if fn is None:
         return None
     inner = [n for n in ast.walk(fn) if isinstance(n, ast.FunctionDef) and n is not fn
